@@ -6,6 +6,7 @@
  "replace": ["elasticarray_resize"],
  "annotate": ["datastruct/elasticarray.c"],
  "defines": ["VERIF_HALLOC"],
+ "thorough_defines": ["EA_MAXOBJ=4096"],
  "matrix": {"RECLEN": [1, 8, 24]},
  "cbmc": ["--malloc-may-fail", "--malloc-fail-null", "--memory-leak-check"],
  "native": true,
